@@ -84,6 +84,41 @@ def cfunOp : List String → String
   | ["bstr_util_mem_index_of_mem_nocasenorzero", a, b] => match bytesOfHex a, bytesOfHex b with
     | some x, some y => showOpt ((bstr_util_mem_index_of_mem_nocasenorzero (cfunFuel [x, y]) x y x.length y.length).map fun r => toString r.1)
     | _, _ => "bad-op"
+  | ["htp_connp_is_line_folded", a] => match bytesOfHex a with
+    | some d => showOpt ((htp_connp_is_line_folded (cfunFuel [d]) d d.length).map fun r => toString r.1)
+    | none => "bad-op"
+  | ["htp_utf8_decode_allow_overlong", st, cp, b] => match st.toNat?, cp.toNat?, b.toNat? with
+    | some s, some c, some x => showOpt ((htp_utf8_decode_allow_overlong 4 (state := s) (codep := c) (byte := x)).map fun r =>
+        s!"{r.1} {r.2.state} {r.2.codep}")
+    | _, _, _ => "bad-op"
+  | ["bstr_chop", a] => match bytesOfHex a with
+    | some d => showOpt ((bstr_chop (cfunFuel [d]) (b_mem := Htp.CSem.memOf d) (b_len := d.length)).map fun r =>
+        hexOfBytes ((r.2.b_mem.take r.2.b_len.toNat).map fun v => UInt8.ofNat v.toNat))
+    | none => "bad-op"
+  | ["bstr_to_lowercase", a] => match bytesOfHex a with
+    | some d => showOpt ((bstr_to_lowercase (cfunFuel [d]) (b_mem := Htp.CSem.memOf d) (b_len := d.length)).map fun r =>
+        hexOfBytes ((r.2.b_mem.take r.2.b_len.toNat).map fun v => UInt8.ofNat v.toNat))
+    | none => "bad-op"
+  | ["bstr_char_at", a, k] => match bytesOfHex a, k.toNat? with
+    | some d, some i => showOpt ((bstr_char_at (cfunFuel [d]) (b_mem := Htp.CSem.memOf d) (b_len := d.length) (pos := i)).map fun r => toString r.1)
+    | _, _ => "bad-op"
+  | ["bstr_char_at_end", a, k] => match bytesOfHex a, k.toNat? with
+    | some d, some i => showOpt ((bstr_char_at_end (cfunFuel [d]) (b_mem := Htp.CSem.memOf d) (b_len := d.length) (pos := i)).map fun r => toString r.1)
+    | _, _ => "bad-op"
+  | ["bstr_chr", a, k] => match bytesOfHex a, k.toNat? with
+    | some d, some i => showOpt ((bstr_chr (cfunFuel [d]) (b_mem := Htp.CSem.memOf d) (b_len := d.length) (c := i)).map fun r => toString r.1)
+    | _, _ => "bad-op"
+  | ["bstr_rchr", a, k] => match bytesOfHex a, k.toNat? with
+    | some d, some i => showOpt ((bstr_rchr (cfunFuel [d]) (b_mem := Htp.CSem.memOf d) (b_len := d.length) (c := i)).map fun r => toString r.1)
+    | _, _ => "bad-op"
+  | ["bstr_begins_with_mem", a, b] => match bytesOfHex a, bytesOfHex b with
+    | some h, some nd => showOpt ((bstr_begins_with_mem (cfunFuel [h, nd]) nd (haystack_mem := Htp.CSem.memOf h) (haystack_len := h.length)
+        (len := nd.length)).map fun r => toString r.1)
+    | _, _ => "bad-op"
+  | ["bstr_begins_with_mem_nocase", a, b] => match bytesOfHex a, bytesOfHex b with
+    | some h, some nd => showOpt ((bstr_begins_with_mem_nocase (cfunFuel [h, nd]) nd (haystack_mem := Htp.CSem.memOf h) (haystack_len := h.length)
+        (len := nd.length)).map fun r => toString r.1)
+    | _, _ => "bad-op"
   | ["htp_normalize_uri_path_inplace", a] => match bytesOfHex a with
     | some d => showOpt ((htp_normalize_uri_path_inplace (cfunFuel [d, d]) (Htp.CSem.memOf d) d.length).map fun r =>
         hexOfBytes ((r.2.s__mem.take r.2.s__len.toNat).map fun v => UInt8.ofNat v.toNat))
